@@ -14,14 +14,14 @@ structure TyOk (s s' : PState) : Prop where
   settled : Settled s'
 
 def TySound (n : Nat) : Prop :=
-  ∀ s s' r, W s → EofEnd s → (tyParse n).run s = .ok r s' → ¬ Doomed s' →
+  ∀ s s' r, TW s → EofEnd s → (tyParse n).run s = .ok r s' → ¬ Doomed s' →
     (∃ tk, r = TyRes.errTok tk) ∨ (r = TyRes.ok ∧ TyOk s s')
 
 def IsBase (t : Ast.Ty) : Prop := (∃ n, t = .named n) ∨ (∃ u, t = .list u)
 
 /-- `skip_ignored` right after a `start_node` whose caller has peeked a significant token -/
 theorem withNode_peeked {α : Type} (kind : SK) (body : PI α) (s s' : PState) (a : α) (t : Tok) (rest : List Tok)
-    (w : W s) (ht : Toks s = t :: rest) (hni : isIgnoredKind t.kind = false)
+    (w : TW s) (ht : Toks s = t :: rest) (hni : isIgnoredKind t.kind = false)
     (h : (withNode kind body).run s = .ok a s') :
     ∃ s1 s2, Eat s s1 [] ∧ body.run s1 = .ok a s2 ∧ ObsEq s2 s' := by
   obtain ⟨s0, s2, o0, hr, o2⟩ := withNode_dec kind body s s' a h
@@ -32,7 +32,7 @@ theorem withNode_peeked {α : Type} (kind : SK) (body : PI α) (s s' : PState) (
   subst this
   exact ⟨s1, s2, by simpa using e0.trans e, hb, o2⟩
 
-theorem nameBranch_sound (s s' : PState) (r : TyRes) (t : Tok) (rest : List Tok) (w : W s)
+theorem nameBranch_sound (s s' : PState) (r : TyRes) (t : Tok) (rest : List Tok) (w : TW s)
     (ht : Toks s = t :: rest) (hk : t.kind = .name)
     (h : (withNode "NAMED_TYPE" (withNode "NAME" (do eat "IDENT"; pure TyRes.ok))).run s = .ok r s') :
     r = .ok ∧ Eat s s' [t] := by
@@ -54,7 +54,7 @@ theorem nameBranch_sound (s s' : PState) (r : TyRes) (t : Tok) (rest : List Tok)
     simpa using this
   · rw [ht3] at hq; cases hq
 
-theorem otherBranch_sound (s s' : PState) (r : TyRes) (t : Tok) (hc : s.current = some t) (w : W s)
+theorem otherBranch_sound (s s' : PState) (r : TyRes) (t : Tok) (hc : s.current = some t) (w : TW s)
     (h : (popDrop >>= fun o => match o with
         | some t => (pure (TyRes.errTok t) : PI TyRes)
         | none => pure TyRes.errNone).run s = .ok r s') : r = .errTok t := by
@@ -84,7 +84,7 @@ theorem isTy_bang (b : Tok) (c : List Tok) (u : Ast.Ty) (hb : b.kind = .bang) (h
     rw [List.map_append, h]
     simp [Ast.tTy, hb']
 
-theorem listBranch_sound (n : Nat) (ih : TySound n) (s s' : PState) (r : TyRes) (t : Tok) (rest : List Tok) (w : W s)
+theorem listBranch_sound (n : Nat) (ih : TySound n) (s s' : PState) (r : TyRes) (t : Tok) (rest : List Tok) (w : TW s)
     (he : EofEnd s) (ht : Toks s = t :: rest) (hk : t.kind = .lBracket)
     (h : (withNode "LIST_TYPE" (tyListBody n)).run s = .ok r s') (hnd : ¬ Doomed s') :
     r = .ok ∧ ∃ c u, Toks s = c ++ Toks s' ∧ IsTy (sig c) (.list u) ∧ NoEof c ∧ EofEnd s' := by
@@ -118,7 +118,7 @@ theorem listBranch_sound (n : Nat) (ih : TySound n) (s s' : PState) (r : TyRes) 
     rw [run_pure] at hl2
     injection hl2 with hin hs4
     subst hs4 hin
-    have wl : W sl := ol.w e13.w
+    have wl : TW sl := ol.w e13.w
     obtain ⟨al, dl⟩ := limitErr_adv sl sl2 wl hl1
     have hdl : Doomed sl2 := by
       by_cases hd : Doomed s3
@@ -131,14 +131,14 @@ theorem listBranch_sound (n : Nat) (ih : TySound n) (s s' : PState) (r : TyRes) 
     subst h6
     exact hnd2 hdl
   · -- the nested type
-    have wr1 : W sr1 := w_same _ _ e13.w er1 l1 a1
+    have wr1 : TW sr1 := w_same _ _ e13.w er1 l1 a1
     have her1 : EofEnd sr1 := eofEnd_same _ _ he3 c1 l1 er1
     obtain ⟨res, sr2', hr1, hr2⟩ := bind_dec (tyParse n) _ sr1 sr2 inner hr
     rw [run_pure] at hr2
     injection hr2 with hin hs
     subst hs hin
     have adv_r := good_tyParse n sr1 res sr2' wr1 hr1
-    have w4 : W s4 := w_same _ _ adv_r.w er2 l2 a2
+    have w4 : TW s4 := w_same _ _ adv_r.w er2 l2 a2
     -- the tail: match res …; expect; pure ok
     simp only [] at h6
     have tail_good : ∀ (m : PI TyRes), Good m → m.run s4 = .ok r s2 → ¬ Doomed s4 := by
@@ -202,7 +202,7 @@ theorem listBranch_sound (n : Nat) (ih : TySound n) (s s' : PState) (r : TyRes) 
 theorem isTy_named (t : Tok) (hk : t.kind = .name) : IsTy [t] (.named t.data) := by
   simp [IsTy, Ast.tTy, astOf, hk]
 
-theorem tyBody_sound (n : Nat) (ih : TySound n) (s s' : PState) (r : TyRes) (w : W s) (he : EofEnd s)
+theorem tyBody_sound (n : Nat) (ih : TySound n) (s s' : PState) (r : TyRes) (w : TW s) (he : EofEnd s)
     (h : (tyBody n).run s = .ok r s') (hnd : ¬ Doomed s') :
     (∃ tk, r = TyRes.errTok tk)
     ∨ (r = TyRes.ok ∧ ∃ c u, Toks s = c ++ Toks s' ∧ IsTy (sig c) u ∧ IsBase u ∧ NoEof c ∧ EofEnd s') := by
@@ -338,7 +338,7 @@ theorem tyParse_sound : ∀ (n : Nat), TySound n
           | none => rw [hct] at hc3; simp at hc3
           | some tb => rw [hct] at hc3; exact ⟨tb, rfl, by simpa using hc3.symm⟩
         obtain ⟨tb, rfl, hkb⟩ := hbang
-        have w4 : W s4 := o4.w p.w
+        have w4 : TW s4 := o4.w p.w
         have ht4 : Toks s4 = tb :: (Toks s4).tail := by
           have hh := p.head
           rw [← p.toks, ← o4.toks] at hh
